@@ -85,21 +85,43 @@ func checkCheckWiring(w *World, r *Result) {
 	good := false
 	var pos = gt.Decl.Pos()
 	ast.Inspect(gt.Decl.Body, func(x ast.Node) bool {
-		is, ok := x.(*ast.IfStmt)
-		if !ok || is.Init == nil {
+		// the branch for a JSON column: `if js, isJSON := f.SQLType.(sql.JSON); isJSON { … }`, or the `case sql.JSON:`
+		// clause of `switch ty := f.SQLType.(type)`
+		var js *ast.Ident
+		var subject ast.Expr
+		var branch []ast.Stmt
+		switch v := x.(type) {
+		case *ast.IfStmt:
+			init, ok := v.Init.(*ast.AssignStmt)
+			if !ok || len(init.Rhs) != 1 || !strings.Contains(es(init.Rhs[0]), "sql.JSON") {
+				return true
+			}
+			ta, ok := ast.Unparen(init.Rhs[0]).(*ast.TypeAssertExpr)
+			if !ok {
+				return true
+			}
+			js, subject, branch = identOf(init.Lhs[0]), ta.X, v.Body.List
+			pos = v.Pos()
+		case *ast.TypeSwitchStmt:
+			as, ok := v.Assign.(*ast.AssignStmt)
+			if !ok {
+				return true
+			}
+			for _, cl := range v.Body.List {
+				cc := cl.(*ast.CaseClause)
+				if len(cc.List) == 1 && strings.HasSuffix(es(cc.List[0]), "sql.JSON") {
+					js, subject, branch = identOf(as.Lhs[0]), as.Rhs[0].(*ast.TypeAssertExpr).X, cc.Body
+					pos = cc.Pos()
+				}
+			}
+		default:
 			return true
 		}
-		init, ok := is.Init.(*ast.AssignStmt)
-		if !ok || len(init.Rhs) != 1 || !strings.Contains(es(init.Rhs[0]), "sql.JSON") {
+		if js == nil || branch == nil {
 			return true
 		}
-		pos = is.Pos()
-		js := identOf(init.Lhs[0])
-		ta, ok := ast.Unparen(init.Rhs[0]).(*ast.TypeAssertExpr)
-		if js == nil || !ok {
-			return true
-		}
-		colOwner := strings.TrimSuffix(es(ta.X), ".SQLType") // f
+		is := &ast.BlockStmt{List: branch}
+		colOwner := strings.TrimSuffix(es(subject), ".SQLType") // f
 		jvCalls, jvArgOK, declsFlow, checkOK := 0, false, false, false
 		var scan func(fi *FuncInfo, scope ast.Node, base map[types.Object]string, depth int)
 		scan = func(fi *FuncInfo, scope ast.Node, base map[types.Object]string, depth int) {
@@ -174,7 +196,7 @@ func checkCheckWiring(w *World, r *Result) {
 				return true
 			})
 		}
-		scan(gt, is.Body, nil, 0)
+		scan(gt, is, nil, 0)
 		good = jvCalls == 1 && jvArgOK && declsFlow && checkOK
 		return true
 	})
@@ -325,14 +347,17 @@ func checkStructValidator(w *World, r *Result) {
 	apps := appendStmts(info, fl.rs.Body, "")
 	names := map[string]string{}
 	lock := true
+	// every list grows under the same conditions (the Exported() filter, however it is spelled) and nothing else
+	filter, accs := loopFilterSplit(info, fi.Decl, fl.rs, fl.subst)
+	_ = filter
+	for _, a := range accs {
+		if len(a.own) != 0 {
+			lock = false
+		}
+	}
 	for _, a := range apps {
 		target := es(a.Lhs[0])
 		names[target] = render(info, a.Rhs[0].(*ast.CallExpr).Args[1], fl.subst)
-		for _, c := range pathCondsNoLoop(fi, a) {
-			if c.exit == nil {
-				lock = false
-			}
-		}
 	}
 	r.cond(len(apps) >= 3 && lock, "AGR-C04l", fi.Name, "keys, checks and member validators appended in lock-step", w.Pos(fl.rs.Pos()), "one append to each list per exported field, in the same block", "the key list and the per-key checks are not appended together once per exported field: a key is allowed without being checked, or checked without being allowed")
 	// the key IN (...) rejection exists
